@@ -222,11 +222,14 @@ def limits_rule(chk, rule: str, fn, what: str, tail_attr: str):
                 chk.violation(rule, n, K.short(n), f"limit {lim}",
                               f"{what}: a buffered partial line is compared with `{lim}` while complete lines are compared with {sorted(comp_limits)}: "
                               "the same bytes are accepted or rejected depending on where a read boundary falls")
-    # every complete-line limit has a partial counterpart
-    plims = {lim for _n, _l, right, _s in partial for lim, _st in _expand_local(fn, right)}
+    # every complete-line limit has a partial counterpart (same limit, same parser state)
+    pl = [(lim, st) for _n, _l, right, _s in partial for lim, st in _expand_local(fn, right)]
     for lim, recs in comp_limits.items():
-        if lim not in plims and not lim.startswith("self.max_field_size") and "header_length" not in recs[0][1:]:
-            pass
+        for n, cstate in recs:
+            if not any(pl_lim == lim and (not pst or not cstate or set(pst) == set(cstate)) for pl_lim, pst in pl):
+                chk.violation(rule, n, K.short(n), f"partial-line check with limit {lim}" + (f" in state {cstate}" if cstate else ""),
+                              f"{what}: complete lines are limited by `{lim}`" + (f" in state {cstate}" if cstate else "") + " but a buffered partial line at that position is compared with a different limit: "
+                              "the same bytes are accepted or rejected depending on where a read boundary falls")
 
 
 def _expand_local(fn, text: str):
@@ -305,6 +308,20 @@ def run(chk):
                 else:
                     chk.violation("C03.state", hits[0][0], K.short(K.stmt_of(hits[0][0])), f"writer {f.qualname}",
                                   f"parse-state attribute .{attr} is written outside the parser's own methods")
+    # nobody outside the parser reaches into its state: `<x>._parser.<state attr> = ...` in the protocol modules
+    state_attrs = {a for sp in STATE_OWNERS.values() for a in sp["attrs"]}
+    for rel in ("aiohttp/web_protocol.py", "aiohttp/client_proto.py", "aiohttp/base_protocol.py"):
+        for fn in repo.module(rel).functions.values():
+            for n in ast.walk(fn.node):
+                tgts = []
+                if isinstance(n, ast.Assign):
+                    tgts = n.targets
+                elif isinstance(n, (ast.AugAssign, ast.AnnAssign)):
+                    tgts = [n.target]
+                for t in tgts:
+                    if isinstance(t, ast.Attribute) and t.attr in state_attrs and "_parser" in norm.raw(t.value):
+                        chk.violation("C03.state", n, K.short(n), f"writer {fn.qualname}", f"parse-state attribute .{t.attr} of the parser is written from {rel}")
+    chk.ok("C03.state", (f"{MOD}:<module>", 0), "no protocol module assigns to the parser's state attributes")
     # C03.save: whenever the loop is left with the local buffer emptied, the unconsumed bytes were stored first
     n_save = 0
     for st, _b in K.stmts(hp, "data = EMPTY"):
@@ -313,12 +330,15 @@ def run(chk):
         if any(M.contains(p, "data[start_pos:]") and isinstance(p, ast.Assign) and "self._tail" in norm.raw(p.targets[0]) for p in prior):
             chk.ok("C03.save", st, "unconsumed input `data[start_pos:]` is stored in self._tail before the local buffer is dropped")
             n_save += 1
-        elif K.in_finally(st) is None and not any(isinstance(a, ast.ExceptHandler) for a in prog.enclosing(st, (ast.ExceptHandler,))):
+        elif not K.loop_ancestors(st):
             # `else: data = EMPTY` after the loop (nothing left) is fine when guarded by the emptiness test
-            if PC.has_lit(PC.pc(st), "start_pos < data_len", False) is not None or any(len(c) > 1 for c in PC.pc(st)):
-                chk.ok("C03.save", st, "buffer dropped only when nothing is left (`not (data and start_pos < data_len)`)")
+            lits = [l for c in PC.pc(st, raw=True) for l in c]
+            if any(l.text == "data" for l in lits) and any(" < " in l.text for l in lits):
+                chk.ok("C03.save", st, "after the loop the buffer is dropped only when nothing is left (`not (data and start_pos < data_len)`)")
             else:
-                chk.violation("C03.save", st, "data = EMPTY", "self._tail = data[start_pos:]", "the local buffer is dropped without storing the unconsumed input")
+                chk.violation("C03.save", st, "data = EMPTY", "guard `data and start_pos < data_len`", "the unconsumed remainder is dropped when the loop is left")
+        else:
+            chk.violation("C03.save", st, "data = EMPTY", "self._tail = data[start_pos:]", "inside the parse loop the local buffer is dropped without storing the unconsumed input: the partial line is lost")
     chk.expect_count("C03.save", n_save, 2, "`self._tail = data[start_pos:]; data = EMPTY` pairs")
     for st, _b in K.stmts(pp, "return PayloadState.PAYLOAD_NEEDS_INPUT, b''"):
         pass
